@@ -152,6 +152,22 @@ theorem escapePathSection_is_escText (sep : Char) (hsep : sep = '.' ∨ sep = '/
   unfold escapePathSection
   simp only [ensureEscaped_section hsep t h]
 
+/-- **`--pathsep auto` prints dot notation.**  `yaml-paths` accepts three separators (`Sep`); everything the
+search and `escape_path_section` ask of the one they are given is `is FSLASH` / `str()`, which AUTO answers as
+DOT does — so a search run with AUTO is, hit for hit and character for character, the search run with DOT
+(leading-slash protection of a top-level key included). -/
+theorem search_auto_is_dot (o : Opts) (μ : Scalar → Bool) (d : SNode) :
+    search ⟨o.withSep .auto, μ⟩ d = search ⟨o.withSep .dot, μ⟩ d := rfl
+
+/-- **Every printed path resolves, whichever of the three separators `--pathsep` hands to the search**:
+`search_paths_reresolve` for the options `o.withSep s`; the notation the path was printed in — and is parsed in —
+is forward-slash for FSLASH and dot for DOT and for AUTO. -/
+theorem search_paths_reresolve_sep (s : Sep) (o : Opts) (μ : Scalar → Bool) (d : SNode) (h : Hit)
+    (hh : h ∈ search ⟨o.withSep s, μ⟩ d) (hok : okAddr (liveIn d) d h.addr = true) :
+    ∃ S segs, printed h.path = .ok S ∧ parseWith s.isFslash true S = .ok segs ∧
+      resolve (liveIn d) d segs = [h.addr] :=
+  search_paths_reresolve ⟨o.withSep s, μ⟩ d h hh hok
+
 /-! ## Concrete instances (the hypotheses are met, the functions compute) -/
 
 /-- `a: &x {k: v}`, `b: *x`, `c: [&s v, *s]` -/
@@ -232,6 +248,13 @@ example : (search (valCtx true) rrDoc).map Hit.path =
      "/s\\ t/m\\/n".toList, "/1".toList] := by decide +kernel
 example : reresolves (valCtx true) rrDoc ⟨"/\\/k/[&b]".toList, [.key (.str "/k".toList), .mref 0]⟩ = true ∧
     reresolves (valCtx true) rrDoc ⟨"/s\\ t/m\\/n".toList, [.key (.str "s t".toList), .member (.str "m/n".toList)]⟩ = true := by
+  decide +kernel
+
+/-- `--pathsep auto`: the top-level key `/k` is printed with its protective backslash, as in dot notation, and
+every hit comes back as its address when the printed text is read in dot notation -/
+example : (search ⟨({ inclValueAliases := true, searchAnchors := true } : Opts).withSep .auto, fun _ => true⟩ rrDoc) = rrHits := by
+  decide +kernel
+example : (rrHits.all fun h => reresolves ⟨({ inclValueAliases := true, searchAnchors := true } : Opts).withSep .auto, fun _ => true⟩ rrDoc h) = true := by
   decide +kernel
 
 /-- **K1** (`{1: x, '1': y}`): the hypothesis fails, and the printed `1` resolves to both entries -/
